@@ -158,6 +158,14 @@ theorem lookup_map_none {β : Type} (f : Nat → β) : ∀ (l : List Nat) (k : N
     simp only [this]
     exact ih k h.2
 
+theorem all_congr_mem {α : Type} (f f' : α → Bool) : ∀ (l : List α), (∀ a ∈ l, f a = f' a) → l.all f = l.all f' := by
+  intro l
+  induction l with
+  | nil => intro _; rfl
+  | cons a l ih =>
+    intro h
+    simp only [List.all_cons, h a (by simp), ih fun x hx => h x (by simp [hx])]
+
 /-! ## one request -/
 
 theorem evalRequest_refines {g : Graph} (fix : Fix) (hfixr : fix.rollback = true)
@@ -211,7 +219,7 @@ theorem evalRequest_refines {g : Graph} (fix : Fix) (hfixr : fix.rollback = true
   have hkeys : ∀ i ∈ imps, SourceIdent i.1 := by
     intro i hi
     apply hsrc i.1
-    refine Or.inl ((hrev.keys i.1).mp ?_)
+    refine Or.inl (Or.inl ((hrev.keys i.1).mp ?_))
     simp only [List.map_map]
     exact List.mem_map.mpr ⟨i, hi, rfl⟩
   have htbl2 : ∀ k n, (r.defs.foldl (fun t d => (d, (⟨.top M.nreq, d, false⟩ : Val)) :: t)
@@ -223,7 +231,7 @@ theorem evalRequest_refines {g : Graph} (fix : Fix) (hfixr : fix.rollback = true
     · intro i hi e
       exact mangle_ne_src k n i.1 (hkeys i hi) e.symm
     · intro d hd e
-      exact mangle_ne_src k n d (hsrc d (Or.inr hd)) e.symm
+      exact mangle_ne_src k n d (hsrc d (Or.inl (Or.inr hd))) e.symm
   have hclosedV : ∀ k, ∀ n ∈ (g.mod k).views, ((senv (sBuild g) k).lookup n).isSome = true := by
     intro k n hn
     have := hG k
@@ -246,7 +254,35 @@ theorem evalRequest_refines {g : Graph} (fix : Fix) (hfixr : fix.rollback = true
     have hall' : ∀ s ∈ (g.mod k).reqs, ∃ l, s.importsS (sExports (sBuild g)) = some l :=
       fun s hs => specOK_some (hmg.1 s hs)
     exact (senv_eq hwf k hall').2.2
+  -- what the program binds: the same for every source identifier
+  have htop : ∀ n, SourceIdent n →
+      (r.defs.foldl (fun t d => (d, (⟨.top M.nreq, d, false⟩ : Val)) :: t)
+        (imps.foldl (fun t i => (i.1, i.2.val) :: t) scratch.tbl)).lookup n =
+      (Env.bindAll ((sImports (sExports (sBuild g)) r.specs).reverse ++ S.top)
+        (r.defs.map fun d => (d, (⟨.top S.nreq, d, false⟩ : Val)))).lookup n := by
+    intro n hn
+    simp only [foldl_cons_eq, Env.bindAll, List.lookup_append]
+    have h1 : ((imps.map fun i => (i.1, i.2.val)).reverse).lookup n =
+        (sImports (sExports (sBuild g)) r.specs).reverse.lookup n := hrev n
+    have h2 : scratch.tbl.lookup n = S.top.lookup n := by
+      rw [hf.tbl n (fun k _ n' e => mangle_ne_src k n' n hn e.symm)]
+      exact hrel.top n hn
+    rw [h1, h2, hrel.nreq]
+  have hU : (r.uses.all fun n =>
+        ((r.defs.foldl (fun t d => (d, (⟨.top M.nreq, d, false⟩ : Val)) :: t)
+          (imps.foldl (fun t i => (i.1, i.2.val) :: t) scratch.tbl)).lookup n).isSome) =
+      (r.uses.all fun n =>
+        ((Env.bindAll ((sImports (sExports (sBuild g)) r.specs).reverse ++ S.top)
+          (r.defs.map fun d => (d, (⟨.top S.nreq, d, false⟩ : Val)))).lookup n).isSome) := by
+    apply all_congr_mem
+    intro n hn
+    rw [htop n (hsrc n (Or.inr hn))]
   have hS : evalRequestS g (sBuild g) S r =
+      if !(r.uses.all fun n =>
+        ((Env.bindAll ((sImports (sExports (sBuild g)) r.specs).reverse ++ S.top)
+          (r.defs.map fun d => (d, (⟨.top S.nreq, d, false⟩ : Val)))).lookup n).isSome) then
+        ({ S with nreq := S.nreq + 1 }, .errFreeId)
+      else
       (⟨Env.bindAll ((sImports (sExports (sBuild g)) r.specs).reverse ++ S.top)
           (r.defs.map fun d => (d, (⟨.top S.nreq, d, false⟩ : Val))),
         S.inst ++ (r.needs g).eraseDups.filter (· ∉ S.inst), S.nreq + 1⟩,
@@ -256,6 +292,8 @@ theorem evalRequest_refines {g : Graph} (fix : Fix) (hfixr : fix.rollback = true
   obtain ⟨st0, hst0, hne1, hne2⟩ : ∃ st0, (if r.mode = .failRuntime then Status.errRuntime else Status.ok) = st0 ∧
       st0 ≠ .errSyntax ∧ st0 ≠ .errFreeId := by
     rcases hm with e | e <;> simp [e]
+  have hIx : evalRequestI true g M.im r.specs r.mode true = (M.im, .errFreeId, []) := by
+    rw [evalRequestI_eq]; simp [hfc]
   rw [hst0] at hI hS
   rw [hS]
   -- M
@@ -265,8 +303,20 @@ theorem evalRequest_refines {g : Graph} (fix : Fix) (hfixr : fix.rollback = true
     exact List.all_eq_true.mp (sView_all_some (sBuild g) k (hclosedV k))
   unfold evalRequestM
   simp only [hfixr, hI, hrun, himps]
-  rw [hviews _ htbl2]
-  simp only [hne1, hne2, or_self, if_false, hvall, Bool.not_true, Bool.false_eq_true,
+  rw [hviews _ htbl2, hU]
+  by_cases hu' : (r.uses.all fun n =>
+        ((Env.bindAll ((sImports (sExports (sBuild g)) r.specs).reverse ++ S.top)
+          (r.defs.map fun d => (d, (⟨.top S.nreq, d, false⟩ : Val)))).lookup n).isSome) = false
+  · -- the program refers to an unbound name: both reject it, nothing changes
+    simp only [hne1, hne2, or_self, if_false, hvall, hu', Bool.and_false, Bool.not_false, if_true, hIx]
+    exact ⟨trivial, hrel.kinv, hrel.inst, by simp [hrel.nreq], hrel.top,
+      fun k hk => ModOK.of_eq (st := M) rfl rfl (fun _ => rfl) (hrel.mods k hk), hrel.views, hrel.rex,
+      hrel.leaks⟩
+  have hu : (r.uses.all fun n =>
+        ((Env.bindAll ((sImports (sExports (sBuild g)) r.specs).reverse ++ S.top)
+          (r.defs.map fun d => (d, (⟨.top S.nreq, d, false⟩ : Val)))).lookup n).isSome) = true := by
+    simpa using hu'
+  simp only [hne1, hne2, or_self, if_false, hvall, hu, Bool.and_self, Bool.not_true, Bool.false_eq_true,
     clashes_false scratch (hf.rex hrel.rex)]
   refine ⟨trivial, hkinv', ?_, by simp [hrel.nreq], ?_, ?_, ?_, hf.rex hrel.rex, hf.leaks hrel.leaks⟩
   · -- inst
@@ -283,14 +333,7 @@ theorem evalRequest_refines {g : Graph} (fix : Fix) (hfixr : fix.rollback = true
         exact List.mem_append.mp
           (deps_closed g _ hkinv'.cl g.length s.target (htg s hs) k hkd)
   · -- top
-    intro n hn
-    simp only [foldl_cons_eq, Env.bindAll, List.lookup_append]
-    have h1 : ((imps.map fun i => (i.1, i.2.val)).reverse).lookup n =
-        (sImports (sExports (sBuild g)) r.specs).reverse.lookup n := hrev n
-    have h2 : scratch.tbl.lookup n = S.top.lookup n := by
-      rw [hf.tbl n (fun k _ n' e => mangle_ne_src k n' n hn e.symm)]
-      exact hrel.top n hn
-    rw [h1, h2, hrel.nreq]
+    exact htop
   · -- mods
     intro k hk
     exact ModOK.of_eq (st := scratch) rfl rfl (htbl2 k) (hok' k hk)
